@@ -190,32 +190,17 @@ def childIndex (t : Tree) (par child : Path) : Option Nat :=
   if parent child != some par then none
   else (children t par).findIdx? (fun n => n == child)
 
-/-- indextree 4.7.2 (the version `/repo/Cargo.lock` pins) `Children::next_back`, i.e. what
-    `children.rev()` yields, AS SHIPPED: `DoubleEndedIter::next_back` stores the new position in
-    `head` instead of `tail`,
-      `(Some(head), Some(tail)) if head == tail => { head = None; tail = None; Some(head) }`
-      `(_, Some(tail)) => { self.0.head = next_back(&arena[tail]); Some(tail) }`
-    so with two or more children it yields the last child for ever. The first `limit` items. -/
-def childrenNextBack : Nat → Option Path → Option Path → List Path
-  | 0, _, _ => []
-  | _ + 1, _, none => []
-  | limit + 1, some head, some tail =>
-    if head == tail then [head]
-    else tail :: childrenNextBack limit (internalPreviousSibling tail) (some tail)
-  | limit + 1, none, some tail =>
-    tail :: childrenNextBack limit (internalPreviousSibling tail) (some tail)
+/-- `std::iter::successors(first, |n| arena[*n].previous_sibling())`, collected (one unit of fuel
+    per item). -/
+def backwardSiblings : Nat → Option Path → List Path
+  | 0, _ => []
+  | _ + 1, none => []
+  | fuel + 1, some n => n :: backwardSiblings fuel (internalPreviousSibling n)
 
-/-- What `children.rev()` is by the documented contract of a double-ended iterator. -/
-def childrenRevContract (t : Tree) (p : Path) : List Path := ((allChildren t p).map (·.1)).reverse
-
-/-- `reverse_children`: `children.rev().take_while(is_normal)`, first `limit` items (the iterator
-    is infinite when the node has two or more raw children and the last one is normal). -/
-def reverseChildren (t : Tree) (limit : Nat) (p : Path) : List Path :=
-  (childrenNextBack limit (internalFirstChild t p) (internalLastChild t p)).takeWhile (isNormalAt t)
-
-/-- `reverse_children` if `children.rev()` kept its contract. -/
-def reverseChildrenContract (t : Tree) (p : Path) : List Path :=
-  (childrenRevContract t p).takeWhile (isNormalAt t)
+/-- `reverse_children`: walk the sibling links backwards from the raw last child,
+    `take_while(is_normal)`. -/
+def reverseChildren (t : Tree) (p : Path) : List Path :=
+  (backwardSiblings t.size (internalLastChild t p)).takeWhile (isNormalAt t)
 
 /-- `descendants`: arena descendants filtered by `normal_filter`. -/
 def descendants (t : Tree) (p : Path) : List Path := (arenaDescendants t p).filter (isNormalAt t)
@@ -400,12 +385,12 @@ def documentElement (t : Tree) (p : Path) : Outcome AxErr Path :=
     | some c => .ok c
     | none => .err .noElementAtTopLevel
 
-/-- `top_element` (`document_element(node).unwrap()` on a document node). -/
+/-- `top_element` (`document_element(node).unwrap_or(node)` on a document node). -/
 def topElement (t : Tree) (p : Path) : Outcome AxErr Path :=
   if (valueAt t p).isDocument then
     match documentElement t p with
     | .ok c => .ok c
-    | _ => .panic
+    | _ => .ok p
   else
     .ok ((ancestors p).foldl (fun top a => if (valueAt t a).isElement then a else top) p)
 
